@@ -46,6 +46,7 @@ type Strip struct {
 type Case struct {
 	Mode     string      `json:"mode"`
 	Kind     string      `json:"kind"`
+	Ed       string      `json:"ed"` // "proto2" | "open" | "closed" (edition 2023 file, enum E open / closed by feature)
 	Tf       string      `json:"tf"`
 	Tk       []string    `json:"tk"`
 	Ret      [][2]string `json:"ret"`
@@ -166,7 +167,15 @@ func renderStmt(s *Stmt) string {
 // carries the statements (and, in strip mode, a sibling element of the same kind).
 func render(c *Case) string {
 	var sb strings.Builder
-	sb.WriteString("syntax = \"proto2\";\npackage p;\nimport \"google/protobuf/descriptor.proto\";\nimport \"google/protobuf/any.proto\";\n")
+	editions := c.Ed == "open" || c.Ed == "closed"
+	opt := "optional " // the label of singular fields: none in an editions file
+	if editions {
+		opt = ""
+		sb.WriteString("edition = \"2023\";\n")
+	} else {
+		sb.WriteString("syntax = \"proto2\";\n")
+	}
+	sb.WriteString("package p;\nimport \"google/protobuf/descriptor.proto\";\nimport \"google/protobuf/any.proto\";\n")
 	stmts := make([]string, len(c.Stmts))
 	for i := range c.Stmts {
 		stmts[i] = renderStmt(&c.Stmts[i])
@@ -185,23 +194,35 @@ func render(c *Case) string {
 	if c.Kind == "file" {
 		sb.WriteString(long(stmts, ""))
 	}
-	sb.WriteString("enum E { E_ZERO = 0; E_ONE = 1; E_NEG = -1; }\n")
-	fmt.Fprintf(&sb, "message Sub { optional int32 x = 1%s; optional string y = 2%s; repeated int32 rx = 3; }\n",
-		c.fieldOpts("Sub.x"), c.fieldOpts("Sub.y"))
+	if c.Ed == "closed" {
+		sb.WriteString("enum E { option features.enum_type = CLOSED; E_ZERO = 0; E_ONE = 1; E_NEG = -1; }\n")
+	} else {
+		sb.WriteString("enum E { E_ZERO = 0; E_ONE = 1; E_NEG = -1; }\n") // proto2: closed; edition 2023: open by default
+	}
+	fmt.Fprintf(&sb, "message Sub { %sint32 x = 1%s; %sstring y = 2%s; repeated int32 rx = 3; }\n",
+		opt, c.fieldOpts("Sub.x"), opt, c.fieldOpts("Sub.y"))
 	sb.WriteString("message Opt {\n")
 	for i, t := range valueTypes {
-		fmt.Fprintf(&sb, "  optional %s f_%s = %d%s;\n", protoType(t), t, i+1, c.fieldOpts("Opt.f_"+t))
+		fmt.Fprintf(&sb, "  %s%s f_%s = %d%s;\n", opt, protoType(t), t, i+1, c.fieldOpts("Opt.f_"+t))
 	}
-	fmt.Fprintf(&sb, "  optional Sub sub = 20%s;\n  repeated int32 ri = 21;\n  repeated string rs = 22;\n", c.fieldOpts("Opt.sub"))
+	fmt.Fprintf(&sb, "  %sSub sub = 20%s;\n  repeated int32 ri = 21;\n  repeated string rs = 22;\n", opt, c.fieldOpts("Opt.sub"))
 	fmt.Fprintf(&sb, "  repeated Sub rm = 23%s;\n  map<string, int32> mp = 24;\n", c.fieldOpts("Opt.rm"))
-	fmt.Fprintf(&sb, "  optional group Grp = 25%s { optional int32 g = 1; }\n  optional google.protobuf.Any any = 26;\n  map<string, Sub> mm = 27;\n  extensions 100 to 199;\n}\n", c.fieldOpts("Opt.grp"))
-	fmt.Fprintf(&sb, "extend Opt { optional int32 oext = 100%s; optional Sub osub = 101; }\n", c.fieldOpts("oext"))
+	if editions {
+		// no group syntax in editions: delimited message fields (not used by the editions case family)
+		sb.WriteString("  message Grp { int32 g = 1; }\n  Grp grp = 25 [features.message_encoding = DELIMITED];\n")
+		sb.WriteString("  message RG { int32 g = 1; int32 h = 2; }\n  repeated RG rg = 28 [features.message_encoding = DELIMITED];\n")
+	} else {
+		fmt.Fprintf(&sb, "  optional group Grp = 25%s { optional int32 g = 1%s; }\n", c.fieldOpts("Opt.grp"), c.fieldOpts("Grp.g"))
+		fmt.Fprintf(&sb, "  repeated group RG = 28 { optional int32 g = 1%s; optional int32 h = 2; }\n", c.fieldOpts("RG.g"))
+	}
+	sb.WriteString("  " + opt + "google.protobuf.Any any = 26;\n  map<string, Sub> mm = 27;\n  extensions 100 to 199;\n}\n")
+	fmt.Fprintf(&sb, "extend Opt { %sint32 oext = 100%s; %sSub osub = 101; }\n", opt, c.fieldOpts("oext"), opt)
 	fmt.Fprintf(&sb, "extend google.protobuf.%s {\n", optionsMsgOf[c.Kind])
 	for i, t := range valueTypes {
-		fmt.Fprintf(&sb, "  optional %s x_%s = %d%s;\n", protoType(t), t, 50001+i, c.fieldOpts("x_"+t))
+		fmt.Fprintf(&sb, "  %s%s x_%s = %d%s;\n", opt, protoType(t), t, 50001+i, c.fieldOpts("x_"+t))
 	}
-	fmt.Fprintf(&sb, "  optional Opt m = 50020%s;\n  repeated int32 r = 50021;\n  repeated Sub rm = 50022%s;\n}\n",
-		c.fieldOpts("m"), c.fieldOpts("rm"))
+	fmt.Fprintf(&sb, "  %sOpt m = 50020%s;\n  repeated int32 r = 50021;\n  repeated Sub rm = 50022%s;\n}\n",
+		opt, c.fieldOpts("m"), c.fieldOpts("rm"))
 
 	switch c.Kind {
 	case "file":
@@ -209,28 +230,28 @@ func render(c *Case) string {
 		if before {
 			sb.WriteString("message SibM {\n" + long(sibS, "  ") + "}\n")
 		}
-		sb.WriteString("message Host {\n" + long(stmts, "  ") + "  optional int32 hf = 1;\n}\n")
+		sb.WriteString("message Host {\n" + long(stmts, "  ") + "  " + opt + "int32 hf = 1;\n}\n")
 		if after {
 			sb.WriteString("message SibM {\n" + long(sibS, "  ") + "}\n")
 		}
 	case "field":
 		sb.WriteString("message Host {\n")
 		if before {
-			sb.WriteString("  optional int32 sf = 2" + compact(sibS) + ";\n")
+			sb.WriteString("  " + opt + "int32 sf = 2" + compact(sibS) + ";\n")
 		}
-		sb.WriteString("  optional int32 hf = 1" + compact(stmts) + ";\n")
+		sb.WriteString("  " + opt + "int32 hf = 1" + compact(stmts) + ";\n")
 		if after {
-			sb.WriteString("  optional int32 sf = 2" + compact(sibS) + ";\n")
+			sb.WriteString("  " + opt + "int32 sf = 2" + compact(sibS) + ";\n")
 		}
 		sb.WriteString("}\n")
 	case "extension":
 		sb.WriteString("message Xt { extensions 1 to 10; }\nextend Xt {\n")
 		if before {
-			sb.WriteString("  optional int32 sx = 2" + compact(sibS) + ";\n")
+			sb.WriteString("  " + opt + "int32 sx = 2" + compact(sibS) + ";\n")
 		}
-		sb.WriteString("  optional int32 hx = 1" + compact(stmts) + ";\n")
+		sb.WriteString("  " + opt + "int32 hx = 1" + compact(stmts) + ";\n")
 		if after {
-			sb.WriteString("  optional int32 sx = 2" + compact(sibS) + ";\n")
+			sb.WriteString("  " + opt + "int32 sx = 2" + compact(sibS) + ";\n")
 		}
 		sb.WriteString("}\n")
 	case "oneof":
